@@ -93,6 +93,7 @@ def run(chk: Check) -> None:
     run_exported_names_are_not_private(chk, ix)
     run_init_file_test_for_relative_imports(chk, ix)
     run_replacement_names_are_imported(chk, ix)
+    run_literal_strings_kept(chk, ix)
 
 
 def run_pending_decorators_cleared(chk: Check, ix) -> None:
@@ -321,3 +322,38 @@ def run_replacement_names_are_imported(chk: Check, ix) -> None:
                     r9.violation(key, f.loc(c), f"`{norm(c)[:80]}`: with `def list(): ...` in the module the replacement is spelled `_list` and nothing requires `from builtins import list as _list`: the stub line `Alias = _list[int]` refers to an undefined name")
     if n < 2:
         raise AnalysisError(f"stubgen/stubutil: only {n} add_name(TYPING_BUILTIN_REPLACEMENTS[...]) calls found")
+
+
+def run_literal_strings_kept(chk: Check, ix) -> None:
+    """R19.10: the string arguments of Literal[...] do not go through the type-name rewriting."""
+    r10 = chk.rule("R19.10", "AnnotationPrinter.visit_unbound_type rewrites type names (typing.List -> list, Optional -> `X | None`, unknown -> Incomplete) and prints the arguments of a generic through itself (args_str -> arg.accept(self)); a quoted argument is an UnboundType carrying `original_str_expr`. For `Literal[...]` such an argument is a value: visit_unbound_type tells args_str that the enclosing type is Literal (a test naming typing.Literal), and args_str emits `original_str_expr` for those arguments on a branch that does not call `accept`", floor=2)
+    cls = ix.cls("mypy.stubutil.AnnotationPrinter")
+    vu, ar = cls.methods.get("visit_unbound_type"), cls.methods.get("args_str")
+    if vu is None or ar is None:
+        raise AnalysisError("AnnotationPrinter.visit_unbound_type / args_str not found")
+    key = "visit_unbound_type: args_str is told when the enclosing type is Literal"
+    calls = [c for c in ast.walk(vu.node) if isinstance(c, ast.Call) and call_name(c) == "args_str"]
+    if not calls:
+        raise AnalysisError("visit_unbound_type: no call of args_str found")
+    defs = {a.targets[0].id: a.value for a in ast.walk(vu.node) if isinstance(a, ast.Assign) and len(a.targets) == 1 and isinstance(a.targets[0], ast.Name)}
+    told = False
+    for c in calls:
+        for k in c.keywords:
+            v = defs.get(k.value.id, k.value) if isinstance(k.value, ast.Name) else k.value
+            if "typing.Literal" in norm(v):
+                told = True
+    if told:
+        r10.ok(key, vu.loc(calls[0]))
+    else:
+        r10.violation(key, vu.loc(calls[0]), "args_str is called the same way for Literal[...] as for any generic: `Literal['List']` is printed as `Literal['list']`, `Literal['Optional']` as `Literal['Incomplete']`")
+    key = "args_str: quoted arguments of a Literal are emitted as written, without accept()"
+    ok = False
+    for i in ast.walk(ar.node):
+        if isinstance(i, ast.If) and "original_str_expr" in norm(i.test) and any(isinstance(x, ast.Continue) for st in i.body for x in ast.walk(st)) and not any(isinstance(c, ast.Call) and call_name(c) == "accept" for st in i.body for c in ast.walk(st)):
+            params = {a.arg for a in ar.node.args.args + ar.node.args.kwonlyargs}
+            if any(isinstance(x, ast.Name) and x.id in params - {"self", "args"} for x in ast.walk(i.test)):
+                ok = True
+    if ok:
+        r10.ok(key, ar.loc())
+    else:
+        r10.violation(key, ar.loc(), "every argument is printed with arg.accept(self): a quoted Literal value that happens to be a typing name is rewritten like a type")
